@@ -657,7 +657,7 @@ def u_result_dict(root):
     eng.consts["OrderedDict"] = VLib("dict")
     eng.lib["float"] = lambda e, st, a, kw, node: a[0]
     names = VTuple([VStr("a"), VStr("b")])
-    for g_, v_ in (("did_fit", VBool(z3.BoolVal(True))), ("cost_function_value", Val("cost")), ("ndf", Val("ndf")), ("goodness_of_fit", VNone()), ("chi2_probability", VNone()), ("parameter_name_value_dict", Val("values")), ("parameter_cov_mat", Val("cov")),
+    for g_, v_ in (("did_fit", VBool(z3.BoolVal(True))), ("cost_function_value", Val("cost")), ("ndf", VNum(z3.Int("ndf"))), ("goodness_of_fit", VNum(z3.Real("goodness_of_fit"))), ("chi2_probability", VNone()), ("parameter_name_value_dict", Val("values")), ("parameter_cov_mat", Val("cov")),
                    ("parameter_errors", VTuple([Val("err_a"), Val("err_b")])), ("parameter_cor_mat", Val("cor")), ("parameter_names", names), ("asymmetric_parameter_errors", VTuple([Val("computed_a"), Val("computed_b")]))):
         mk(eng, "FitBase", g_, "getter", result=lambda vw, v_=v_: v_)
     mk(eng, "FitBase", "_check_dynamic_error_compatibility", result=lambda vw: VNone())
@@ -665,17 +665,21 @@ def u_result_dict(root):
         for asked in (False, True):
             for fitter_has in (True, False):
                 c = Contract("FitBase", "get_result_dict")
+                c.requires.append(lambda vw: z3.Int("ndf") != 0)
 
                 def post(vw, loaded=loaded, asked=asked, fitter_has=fitter_has):
                     r = vw.result
                     if vw.flow == "raise" or not isinstance(r, VDict) or "asymmetric_parameter_errors" not in r.d:
                         return [("a result dictionary with an entry for the asymmetric uncertainties", z3.BoolVal(False))]
+                    gn = r.d.get("gof/ndf")
+                    ratio = [("the dictionary holds the goodness of fit and ITS ratio to the degrees of freedom (not the cost's)",
+                              z3.And(r.d["goodness_of_fit"].real() == z3.Real("goodness_of_fit"), gn.real() * z3.ToReal(z3.Int("ndf")) == z3.Real("goodness_of_fit")) if isinstance(gn, VNum) and isinstance(r.d.get("goodness_of_fit"), VNum) else z3.BoolVal(False))]
                     got = r.d["asymmetric_parameter_errors"]
                     want = "loaded" if loaded == "with-asymmetric" else "computed" if asked else "fitter" if fitter_has else None
                     if want is None:
-                        return [("none held, none asked for: None", z3.BoolVal(isinstance(got, VNone)))]
+                        return ratio + [("none held, none asked for: None", z3.BoolVal(isinstance(got, VNone)))]
                     ok = isinstance(got, VDict) and list(got.d) == ["a", "b"] and [getattr(x, "tag", None) for x in got.d.values()] == [want + "_a", want + "_b"]
-                    return [(f"the asymmetric uncertainties reported are the {want} ones (loaded results first, then freshly computed ones if asked for, then those the fitter has), keyed by parameter name in order", z3.BoolVal(ok))]
+                    return ratio + [(f"the asymmetric uncertainties reported are the {want} ones (loaded results first, then freshly computed ones if asked for, then those the fitter has), keyed by parameter name in order", z3.BoolVal(ok))]
                 c.ensures.append(post)
 
                 def init(e, st, me_, loaded=loaded, asked=asked, fitter_has=fitter_has):
